@@ -114,6 +114,87 @@ macro_rules! float_scalar_case {
 float_scalar_case!(scalar_f32, f32, 24, clamp01_f32);
 float_scalar_case!(scalar_f64, f64, 53, clamp01_f64);
 
+/// Extreme magnitudes: the endpoints are moderate values times an exact 2^k, up to the top binade (where `to - from`
+/// overflows for opposite signs) and down towards the smallest normal numbers. vek runs on the scaled endpoints, the
+/// result is scaled back exactly and judged against the exact lerp of the unscaled ones.
+macro_rules! float_extreme_case {
+    ($fname:ident, $F:ident, $P:expr, $clamp:ident) => {
+        pub fn $fname(t: &mut Tape, cx: &mut Cx) -> CaseResult {
+            type F = $F;
+            const EPS: f64 = $F::EPSILON as f64;
+            let mut from0 = gen_val(t, $P) as F;
+            let mut to0 = gen_val(t, $P) as F;
+            if t.bool() && from0 != 0.0 {
+                // opposite signs, comparable magnitudes: the difference is up to twice the larger endpoint
+                to0 = -from0 * (1.0 + t.int(-4, 4) as F / 16.0);
+            }
+            if from0 == 0.0 && to0 == 0.0 {
+                from0 = 1.0;
+            }
+            let big = (from0.abs() as f64).max(to0.abs() as f64);
+            let small = [from0.abs() as f64, to0.abs() as f64].iter().copied().filter(|x| *x > 0.0).fold(f64::INFINITY, f64::min);
+            let emax = $F::MAX_EXP as i32; // MAX < 2^emax
+            let emin = $F::MIN_EXP as i32; // MIN_POSITIVE = 2^(emin-1)
+            let k_hi = emax - 1 - big.log2().floor() as i32; // big * 2^k_hi is in the top binade
+            let k_lo = emin + 40 - small.log2().floor() as i32; // small * 2^k_lo >= 2^40 MIN_POSITIVE: results stay normal
+            let k = match t.below(4) {
+                0 => k_hi,
+                1 => k_hi - t.int(1, 3) as i32,
+                2 => k_lo,
+                _ => t.int(k_lo as i64, k_hi as i64) as i32,
+            };
+            let sc = (2.0 as F).powi(k / 2) * (2.0 as F).powi(k - k / 2);
+            let unsc = |x: F| -> f64 { (x as f64) * (2.0f64).powi(-k) }; // exact for f32; f64: see below
+            let (from, to) = (from0 * (2.0 as F).powi(k / 2) * (2.0 as F).powi(k - k / 2), to0 * (2.0 as F).powi(k / 2) * (2.0 as F).powi(k - k / 2));
+            let _ = sc;
+            if !from.is_finite() || !to.is_finite() {
+                discard!("scaled endpoint not finite");
+            }
+            // factor in [0, 1]: the convex combination never exceeds the larger endpoint
+            let f = match t.below(6) {
+                0 => 0.0,
+                1 => 1.0,
+                2 => 0.5,
+                _ => t.unit_f64(),
+            } as F;
+            let diff_overflows = !(to - from).is_finite();
+            cx.label(if diff_overflows { "to - from overflows" } else if k >= k_hi - 3 { "top binades" } else if k <= k_lo + 3 { "next to the smallest normals" } else { "scaled by 2^k" });
+            cx.set_nontrivial(from != to);
+            sample!(cx, "{} from={:e} to={:e} (= {:e}, {:e} * 2^{}) factor={:e}", stringify!($F), from, to, from0, to0, k, f);
+            let (a, b) = (from0 as f64, to0 as f64);
+            let tol = 2.0 * EPS * (a.abs() + b.abs()) * 2.0;
+            // scale results back: for f64 do it in two exact steps to stay inside the f64 range
+            let back = |g: F| -> f64 {
+                if std::mem::size_of::<F>() == 4 { unsc(g) } else { ((g as f64) * (2.0f64).powi(-(k / 2))) * (2.0f64).powi(-(k - k / 2)) }
+            };
+            let exact = lerp_dd(a, b, f as f64);
+            let prec = <F as Lerp<F>>::lerp_unclamped_precise(from, to, f);
+            check!(cx, prec.is_finite(), "{} lerp_unclamped_precise({:e}, {:e}, {:e}) = {:e}: not finite although the result lies between the endpoints", stringify!($F), from, to, f, prec);
+            check_within!(cx, dd_err(back(prec), exact), 0.0, tol, "{} lerp_unclamped_precise from={:e} to={:e} factor={:e} got {:e}", stringify!($F), from, to, f, prec);
+            let cprec = <F as Lerp<F>>::lerp_precise(from, to, f);
+            check_eq!(cx, cprec.to_bits(), prec.to_bits(), "{} lerp_precise vs lerp_unclamped_precise for a factor in [0,1], from={:e} to={:e} factor={:e}", stringify!($F), from, to, f);
+            check_eq!(cx, <&F as Lerp<F>>::lerp_unclamped_precise(&from, &to, f).to_bits(), prec.to_bits(), "{} &lerp_unclamped_precise", stringify!($F));
+            check!(cx, <F as Lerp<F>>::lerp_unclamped_precise(from, to, 0.0) == from, "{} lerp_unclamped_precise({:e},{:e},0) != from", stringify!($F), from, to);
+            check!(cx, <F as Lerp<F>>::lerp_unclamped_precise(from, to, 1.0) == to, "{} lerp_unclamped_precise({:e},{:e},1) != to", stringify!($F), from, to);
+            check!(cx, <F as Lerp<F>>::lerp_precise(from, to, 2.0) == to && <F as Lerp<F>>::lerp_precise(from, to, -1.0) == from, "{} lerp_precise clamps to the endpoints, from={:e} to={:e}", stringify!($F), from, to);
+            // the fast form computes from + (to - from) * t by its documentation: asserted whenever that difference is finite
+            if !diff_overflows {
+                let fast = <F as Lerp<F>>::lerp_unclamped(from, to, f);
+                check_within!(cx, dd_err(back(fast), exact), 0.0, tol, "{} lerp_unclamped from={:e} to={:e} factor={:e} got {:e}", stringify!($F), from, to, f, fast);
+                check!(cx, <F as Lerp<F>>::lerp_unclamped(from, to, 0.0) == from, "{} lerp_unclamped({:e},{:e},0) != from", stringify!($F), from, to);
+                check_eq!(cx, <F as Lerp<F>>::lerp(from, to, f).to_bits(), fast.to_bits(), "{} lerp vs lerp_unclamped in [0,1]", stringify!($F));
+            }
+            // vector lanes go through the same scalar code
+            let v = Vec4::<F>::lerp_unclamped_precise(Vec4::broadcast(from), Vec4::broadcast(to), f);
+            check!(cx, v.x.is_finite() && v.w.is_finite(), "{} Vec4::lerp_unclamped_precise lane not finite: {:?}", stringify!($F), v);
+            check_within!(cx, dd_err(back(v.z), exact), 0.0, tol, "{} Vec4::lerp_unclamped_precise lane from={:e} to={:e} factor={:e} got {:e}", stringify!($F), from, to, f, v.z);
+            Ok(())
+        }
+    };
+}
+float_extreme_case!(extreme_f32, f32, 24, clamp01_f32);
+float_extreme_case!(extreme_f64, f64, 53, clamp01_f64);
+
 macro_rules! float_vec_case {
     ($fname:ident, $F:ident, $P:expr, $clamp:ident) => {
         /// Vec4 / Rgba / Vec3 of floats: inherent (scalar and per-lane factor) and trait forms, lane by lane.
